@@ -68,6 +68,42 @@
   (default destroyed) — nothing for a caller that is no longer      C18_testament_add_unattached
   attached; flush_testaments empties exactly the scope
 
+  -- work package A (audit A §3) --------------------------------------------------------------------
+  WHO receives a subscription meta event, exactly once, with what:   C18_meta_event_exact
+  through each subscription `s` of the broker, session `k` gets
+  exactly one EVENT (id of `s`, the publication id, topic detail
+  iff `s` is a pattern subscription, the arguments) iff `s` matches
+  the meta topic, `k` is a member and `k` did not cause the event;
+  nothing through ids that name no subscription; every send has
+  that form
+  kill procedures end EXACTLY the targeted sessions: the full        C18_kill_exact, C18_kill_exact_session,
+  result of `metaProc` with the selector given declaratively —       C18_kill_errors, C18_kill_targets
+  leave tasks (GOODBYE reason/message, `all` for kill_all) for
+  exactly the attached sessions matching the selector, not the
+  caller, not already ending, in `clients` order; their keys
+  appended to `ending`; the count answered; error cases unchanged
+  testaments (and every other meta publication) are published        C18_testament_published, C18_testament_ppt,
+  exactly as requested: valid topic, disclosure not refused →        C18_testament_dropped, C18_testament_reachable,
+  one publication by the meta session, delivered as C01 says, an     C18_metaS_const
+  `acknowledge` option changes nothing, `ppt_*` options are passed
+  through (the meta session has the feature in every reachable
+  realm); invalid topic or refused disclose_me → DROPPED, nobody     C18_testament_cases, C18_testament_ppt
+  is told (recorded behaviour)
+  meta topics are valid URIs (strict or not): on_join / on_leave /   C18_meta_topics_valid, C18_session_events_published
+  registration events are never dropped for URI reasons
+  first steps of the meta-call round trip: the `metaInvoke` task     C18_meta_invoke_task, C18_meta_answer_task,
+  runs `metaProc` on the state at that moment and queues the         C18_meta_call_drain
+  answer; the answer is the meta session's YIELD / ERROR (authz
+  never applies to the meta session)
+  a CALL of a meta procedure by an attached client is answered in    C18_call_roundtrip_stmt (statement),
+  the same step with RESULT / ERROR rendered from `metaProc` on      C18_call_roundtrip_partial,
+  the state after the CALL was routed (full statement false in       C18_call_roundtrip_stmt_full_fails,
+  the model only through `Op.join metaKey`, a model artifact)        C18_meta_answer_delivered
+  registration events on leave: per registration the session is a   C18_events_leave_regs,
+  callee of, in callee-index order, on_unregister then on_delete     C18_events_leave_exact
+  iff it was the last callee; nothing for other registrations;
+  all tasks of a departure = pending ++ these ++ testaments ++ [on_leave]
+
   HISTORY.  An earlier version of this file proved `C18_sub_count_list_full_fails`: for a
   subscription without subscribers (a pre-created history subscription) `list_subscribers` answered
   ERROR no_such_subscription while `count_subscribers` answered 0.  The real router did the same;
@@ -80,6 +116,7 @@
 -/
 import Nexus.L2.Proofs.RealmMetaEvents
 import Nexus.L2.Proofs.RealmLeave
+import Nexus.L2.Proofs.WpAC18Call
 
 namespace Nexus.C18
 open Nexus.L2 Nexus.L2.Realm Nexus.Gen.N
@@ -657,5 +694,607 @@ theorem C18_testament_flush (r : Realm) (req c : Nat) (details : Dict) (args : L
   · rw [metaProc_flushTestaments, hc]
     simp only [hsc, hf, Bool.false_eq_true, if_false]
     split <;> simp
+
+/-! ## Work package A: exactness theorems -/
+
+section WpA
+open Nexus.L2.WpA Nexus.L2.Realm.WpA
+
+/-! ### who receives a subscription meta event -/
+
+/-- WHO receives a subscription meta event, EXACTLY ONCE, WITH WHAT (completeness of `C18_events_not_echoed`).
+    For a broker satisfying its invariant:
+    * through a subscription `s` of the broker, session `k` gets exactly one EVENT — `s`'s id, the publication
+      id, `topic` in the details iff `s` is pattern-based, the arguments, no keyword arguments — iff `s` matches
+      the meta topic under its own policy, `k` is a member of `s`, and `k` is not the session that caused the
+      event; otherwise nothing;
+    * nothing goes through an id that is not the id of a subscription;
+    * every message sent has that form for some matching subscription and one of its members ≠ cause. -/
+theorem C18_meta_event_exact {b : Broker} (hb : BrokerInv b) (t : String) (pid : Nat) (cause : SessKey)
+    (args : List WVal) :
+    (∀ s ∈ b.subs, ∀ k,
+      through (b.metaEvent t pid cause args) k s.id =
+        if s.matchesTopic t = true ∧ k ∈ s.members ∧ k ≠ cause then
+          [⟨k, .event s.id pid (if s.isPattern then [("topic", .str t)] else []) args []⟩]
+        else []) ∧
+    (∀ k id, (∀ s ∈ b.subs, s.id ≠ id) → through (b.metaEvent t pid cause args) k id = []) ∧
+    (∀ x ∈ b.metaEvent t pid cause args,
+      ∃ s ∈ b.subs, s.matchesTopic t = true ∧ x.to ∈ s.members ∧ x.to ≠ cause ∧
+        x = ⟨x.to, .event s.id pid (if s.isPattern then [("topic", .str t)] else []) args []⟩) :=
+  ⟨fun _ hs k => through_metaEvent hb t pid cause args hs k,
+   fun k id hno => through_metaEvent_none b t pid cause args k id hno,
+   fun x hx => metaEvent_mem_shape b t pid cause args x hx⟩
+
+-- non-vacuity: sessions 3 and 4 observe on_subscribe; session 4 causes an event: 3 gets it once, 4 does not
+example : let b0 : Broker := (({} : Broker).run
+      [.subscribe 3 1 MetaEventSubOnSubscribe "" 0, .subscribe 4 1 MetaEventSubOnSubscribe "" 1])
+    BrokerInv b0 ∧
+    (through (b0.metaEvent MetaEventSubOnSubscribe 9 4 []) 3 1).map (·.to) = [3] ∧
+    (through (b0.metaEvent MetaEventSubOnSubscribe 9 4 []) 4 1).map (·.to) = [] := by
+  intro b0
+  exact ⟨(BrokerInv.empty false false).run _, by decide, by decide⟩
+
+/-! ### kill procedures: exactly the targeted sessions -/
+
+/-- "EXACTLY the targeted sessions": the sessions `killTargets r P` are the attached sessions satisfying the
+    selector `P` that are not already ending — each once (as often as in `clients`), in `clients` order — and
+    `endSessions` gives exactly them a `leave` task with the GOODBYE and marks exactly them as ending; nothing
+    else of the realm changes. -/
+theorem C18_kill_targets (r : Realm) (P : Session → Prop) (g : Msg) (all : Bool) :
+    (∀ c, c ∈ killTargets r P ↔ c ∈ r.clients ∧ P c ∧ c.key ∉ r.ending) ∧
+    (killTargets r P).Sublist r.clients ∧
+    (endSessions r (killTargets r P) g all).tasks =
+      r.tasks ++ (killTargets r P).map (fun c => Task.leave c.key (.killed g all)) ∧
+    (endSessions r (killTargets r P) g all).ending = r.ending ++ (killTargets r P).map (·.key) ∧
+    (∀ k, Task.leave k (.killed g all) ∈ (killTargets r P).map (fun c => Task.leave c.key (.killed g all)) ↔
+      ∃ c ∈ r.clients, c.key = k ∧ P c ∧ c.key ∉ r.ending) ∧
+    (endSessions r (killTargets r P) g all).clients = r.clients ∧
+    (endSessions r (killTargets r P) g all).broker = r.broker ∧
+    (endSessions r (killTargets r P) g all).ds = r.ds ∧
+    (endSessions r (killTargets r P) g all).queues = r.queues ∧
+    (endSessions r (killTargets r P) g all).testaments = r.testaments := by
+  refine ⟨mem_killTargets r P, killTargets_sublist r P, rfl, rfl, ?_, rfl, rfl, rfl, rfl, rfl⟩
+  intro k
+  simp only [List.mem_map]
+  constructor
+  · rintro ⟨c, hc, he⟩
+    have hk : c.key = k := by injection he
+    exact ⟨c, ((mem_killTargets r P c).mp hc).1, hk, ((mem_killTargets r P c).mp hc).2⟩
+  · rintro ⟨c, hc, hk, hp, he⟩
+    exact ⟨c, (mem_killTargets r P c).mpr ⟨hc, hp, he⟩, by rw [hk]⟩
+
+/-- THE THREE BULK KILL PROCEDURES, full result (`reason`, if given, a valid URI).
+    `kill_by_authid [v]` / `kill_by_authrole [v]`: the targets are the sessions whose id is not the caller's and
+    whose `authid` (resp. `authrole`) detail is the string `v`; `kill_all`: every session but the caller.  The
+    answer is the number of sessions actually ended (`killTargets`: targets not already ending), the new state is
+    `r` with exactly those told to end (`endSessions`: GOODBYE with the given reason — default wamp.close.normal —
+    and message; `all` for kill_all). -/
+theorem C18_kill_exact (r : Realm) (req : Nat) (details : Dict) (kw : Dict) (hr : badReasonOf kw = false) :
+    (∀ v rest,
+      metaProc r MetaProcSessionKillByAuthid req details (.str v :: rest) kw =
+        (mYield req [.int (killTargets r (fun c => callerOf details ≠ some (sidOf c.key) ∧
+                              c.details.get? "authid" = some (.str v))).length],
+         endSessions r (killTargets r (fun c => callerOf details ≠ some (sidOf c.key) ∧
+                              c.details.get? "authid" = some (.str v)))
+           (makeGoodbye (kwStr kw "reason") (kwStr kw "message") false) false)) ∧
+    (∀ v rest,
+      metaProc r MetaProcSessionKillByAuthrole req details (.str v :: rest) kw =
+        (mYield req [.int (killTargets r (fun c => callerOf details ≠ some (sidOf c.key) ∧
+                              c.details.get? "authrole" = some (.str v))).length],
+         endSessions r (killTargets r (fun c => callerOf details ≠ some (sidOf c.key) ∧
+                              c.details.get? "authrole" = some (.str v)))
+           (makeGoodbye (kwStr kw "reason") (kwStr kw "message") false) false)) ∧
+    (∀ args,
+      metaProc r MetaProcSessionKillAll req details args kw =
+        (mYield req [.int (killTargets r (fun c => callerOf details ≠ some (sidOf c.key))).length],
+         endSessions r (killTargets r (fun c => callerOf details ≠ some (sidOf c.key)))
+           (makeGoodbye (kwStr kw "reason") (kwStr kw "message") true) true)) :=
+  ⟨fun v rest => kill_by_authid_exact r req details v rest kw hr,
+   fun v rest => kill_by_authrole_exact r req details v rest kw hr,
+   fun args => kill_all_exact r req details args kw hr⟩
+
+/-- `session.kill [sid]` for an attached session `sid` that is not the caller: empty YIELD, and exactly the
+    session(s) with that id — not already ending — are told to end. -/
+theorem C18_kill_exact_session (r : Realm) (req : Nat) (details : Dict) (a : WVal) (rest : List WVal) (kw : Dict)
+    (sid : Nat) (ha : a.asID = some sid) (hc : callerOf details ≠ some sid) (hr : badReasonOf kw = false)
+    (hex : ∃ c ∈ r.clients, sidOf c.key = sid) :
+    metaProc r MetaProcSessionKill req details (a :: rest) kw =
+      (mYield req [],
+       endSessions r (killTargets r (fun c => sidOf c.key = sid))
+         (makeGoodbye (kwStr kw "reason") (kwStr kw "message") false) false) :=
+  kill_exact r req details a rest kw sid ha hc hr hex
+
+/-- The refusals of the kill procedures; the state is UNCHANGED in every one of them.  `session.kill`: no / a
+    malformed id → no_such_session; the caller's own id → no_such_session; an invalid `reason` URI →
+    invalid_uri; an id naming no attached session → no_such_session.  Bulk procedures: no / a non-string
+    argument → no_such_session; an invalid `reason` URI → invalid_uri. -/
+theorem C18_kill_errors (r : Realm) (req : Nat) (details : Dict) (kw : Dict) :
+    (metaProc r MetaProcSessionKill req details [] kw = (mErr req ErrNoSuchSession, r) ∧
+     (∀ a rest, a.asID = none → metaProc r MetaProcSessionKill req details (a :: rest) kw = (mErr req ErrNoSuchSession, r)) ∧
+     (∀ a rest sid, a.asID = some sid → callerOf details = some sid →
+       metaProc r MetaProcSessionKill req details (a :: rest) kw = (mErr req ErrNoSuchSession, r)) ∧
+     (∀ a rest sid, a.asID = some sid → callerOf details ≠ some sid → badReasonOf kw = true →
+       metaProc r MetaProcSessionKill req details (a :: rest) kw = (mErr req ErrInvalidURI, r)) ∧
+     (∀ a rest sid, a.asID = some sid → callerOf details ≠ some sid → badReasonOf kw = false →
+       (∀ c ∈ r.clients, sidOf c.key ≠ sid) →
+       metaProc r MetaProcSessionKill req details (a :: rest) kw = (mErr req ErrNoSuchSession, r))) ∧
+    (∀ proc, proc = MetaProcSessionKillByAuthid ∨ proc = MetaProcSessionKillByAuthrole →
+      metaProc r proc req details [] kw = (mErr req ErrNoSuchSession, r) ∧
+      (∀ a rest, a.asString = none → metaProc r proc req details (a :: rest) kw = (mErr req ErrNoSuchSession, r)) ∧
+      (∀ v rest, badReasonOf kw = true → metaProc r proc req details (.str v :: rest) kw = (mErr req ErrInvalidURI, r))) ∧
+    (∀ args, badReasonOf kw = true → metaProc r MetaProcSessionKillAll req details args kw = (mErr req ErrInvalidURI, r)) :=
+  ⟨kill_errors r req details kw, (kill_bulk_errors r req details kw).1, (kill_bulk_errors r req details kw).2⟩
+
+-- non-vacuity: three sessions, two of them "bob", one of those already ending; session 1 (a bob) calls
+example : badReasonOf [] = false ∧ badReasonOf [("reason", .str "com.example.bye")] = false ∧
+    badReasonOf [("reason", .str "not a uri")] = true := by decide +kernel
+
+example : let r0 : Realm :=
+      { clients := [{ key := 1, details := [("authid", .str "bob")], roles := [], isLocal := true },
+                    { key := 2, details := [("authid", .str "bob")], roles := [], isLocal := true },
+                    { key := 3, details := [("authid", .str "bob")], roles := [], isLocal := true },
+                    { key := 4, details := [("authid", .str "eve")], roles := [], isLocal := true }],
+        ending := [3] }
+    (metaProc r0 MetaProcSessionKillByAuthid 7 [("caller", .int (sidBase + 1))] [.str "bob"] []).2.ending = [3, 2] ∧
+    (metaProc r0 MetaProcSessionKillAll 7 [("caller", .int (sidBase + 1))] [] []).2.ending = [3, 2, 4] ∧
+    (metaProc r0 MetaProcSessionKill 7 [("caller", .int (sidBase + 1))] [.int (sidBase + 4)] []).2.ending = [3, 4] ∧
+    (WVal.int (sidBase + 4)).asID = some (sidBase + 4) ∧
+    callerOf [("caller", .int (sidBase + 1))] ≠ some (sidBase + 4) := by
+  decide
+
+/-! ### testaments (and the router's own meta publications) are published exactly as requested -/
+
+/-- THE META SESSION IS NEVER CHANGED: in every reachable realm it is the session `newRealm` creates — key 0
+    (`metaKey`), details {authrole: trusted}, publisher role with `payload_passthru_mode`. -/
+theorem C18_metaS_const {cfg : Config} {r : Realm} (h : Realm.Reachable cfg r) :
+    r.metaS = ({} : Realm).metaS ∧
+    r.metaS.hasFeature RolePublisher FeaturePayloadPassthruMode = true ∧ r.metaS.key = metaKey :=
+  ⟨reachable_metaS h, (reachable_metaS_ppt h).1, (reachable_metaS_ppt h).2.1⟩
+
+example : (Realm.create {}).isSome = true := by decide +kernel
+
+/-- TESTAMENTS ARE PUBLISHED EXACTLY AS REQUESTED.  The task queued for testament `t` when its owner leaves
+    (`C18_events_leave`) IS the meta session's PUBLISH(options, topic, args, kwargs of the testament).  When the
+    topic is a valid URI for the realm and `disclose_me` is not refused, the result is: one publication id
+    drawn, the broker publishes exactly `pubOf r r.metaS t.opts t.topic t.args t.kw` (publisher = meta session,
+    the testament's options — `exclude`, `eligible`, … —, topic, payload) and the EVENTs it computes are
+    delivered: for every attached client `k` the queue afterwards is the old one offered exactly those EVENTs,
+    which through each subscription are `deliveryOf` (C01).  This holds WITH OR WITHOUT `acknowledge` in the
+    options: the PUBLISHED goes to the meta session, which ignores it. -/
+theorem C18_testament_published (r : Realm) (t : Testament) (hk : r.metaS.key = metaKey)
+    (hf : r.metaS.hasFeature RolePublisher FeaturePayloadPassthruMode = true)
+    (hv : validUri r.broker.strict "" t.topic = true) (hd : discloseRefused r t.opts = false) :
+    r.runTask (.metaPub (testamentPub t)) = r.metaPublish (testamentPub t) ∧
+    r.metaPublish (testamentPub t) = handlePublish r r.metaS 0 t.opts t.topic t.args t.kw ∧
+    r.metaPublish (testamentPub t) =
+      ({ r with pubCount := r.pubCount + 1,
+                broker := (r.broker.syncPublish r.session? r.now (pubOf r r.metaS t.opts t.topic t.args t.kw)).1 } : Realm).deliver
+        (r.broker.syncPublish r.session? r.now (pubOf r r.metaS t.opts t.topic t.args t.kw)).2 ∧
+    (∀ k c, k ≠ metaKey → r.client? k = some c →
+      (r.metaPublish (testamentPub t)).queueOf k =
+        accept c.cap (r.queueOf k)
+          (msgsTo k (r.broker.syncPublish r.session? r.now (pubOf r r.metaS t.opts t.topic t.args t.kw)).2)) ∧
+    (BrokerInv r.broker → ∀ s ∈ r.broker.subs, ∀ k,
+      through (r.broker.syncPublish r.session? r.now (pubOf r r.metaS t.opts t.topic t.args t.kw)).2 k s.id =
+        deliveryOf r.session? (pubOf r r.metaS t.opts t.topic t.args t.kw) s k) :=
+  ⟨rfl, rfl, metaPublish_ok r (testamentPub t) hk hf hv hd,
+   fun k c hne hc => (metaPublish_queue r (testamentPub t) hk hf hv hd k c hne hc).1,
+   fun hb _ hs k => through_syncPublish_eq_deliveryOf hb _ _ _ hs k⟩
+
+/-- … including payload passthru: the publication carries the testament's `ppt_*` options in the EVENT details
+    (`pptInto`) iff `ppt_scheme` is given, and nothing otherwise; the publisher is the meta session, the
+    options / topic / payload are the testament's.  (The meta session is never aborted: `C18_testament_cases`.) -/
+theorem C18_testament_ppt (r : Realm) (t : Testament) :
+    (pubOf r r.metaS t.opts t.topic t.args t.kw).publisher = r.metaS.key ∧
+    (pubOf r r.metaS t.opts t.topic t.args t.kw).topic = t.topic ∧
+    (pubOf r r.metaS t.opts t.topic t.args t.kw).args = t.args ∧
+    (pubOf r r.metaS t.opts t.topic t.args t.kw).kw = t.kw ∧
+    (pubOf r r.metaS t.opts t.topic t.args t.kw).opts = t.opts ∧
+    (pubOf r r.metaS t.opts t.topic t.args t.kw).pubId = pubBase + r.pubCount ∧
+    (pptScheme t.opts = "" → (pubOf r r.metaS t.opts t.topic t.args t.kw).baseDetails = []) ∧
+    (pptScheme t.opts ≠ "" → (pubOf r r.metaS t.opts t.topic t.args t.kw).baseDetails = pptInto t.opts []) := by
+  have h := pubOf_meta r t.opts t.topic t.args t.kw
+  exact ⟨h.1, h.2.2.1, h.2.2.2.1, h.2.2.2.2.1, h.2.2.2.2.2.1, h.2.2.2.2.2.2.1, h.2.2.2.2.2.2.2.2.1, h.2.2.2.2.2.2.2.2.2⟩
+
+/-- THE "NOT PUBLISHED" CASES (recorded behaviour): a testament whose topic is not a valid URI for the realm, or
+    that asks for `disclose_me` in a realm that disallows disclosure, is DROPPED AND NOBODY IS TOLD — the realm
+    state is exactly what it was, with or without `acknowledge` in the options (the ERROR would go to the meta
+    session, which ignores it). -/
+theorem C18_testament_dropped (r : Realm) (t : Testament) (hk : r.metaS.key = metaKey)
+    (hf : r.metaS.hasFeature RolePublisher FeaturePayloadPassthruMode = true) :
+    (validUri r.broker.strict "" t.topic = false → r.runTask (.metaPub (testamentPub t)) = r) ∧
+    (validUri r.broker.strict "" t.topic = true → discloseRefused r t.opts = true →
+      r.runTask (.metaPub (testamentPub t)) = r) :=
+  ⟨fun hv => metaPublish_invalid r (testamentPub t) hk hv,
+   fun hv hd => metaPublish_refused r (testamentPub t) hk hf hv hd⟩
+
+/-- The three cases are exhaustive — in particular a testament with `ppt_scheme` is never answered with an
+    ABORT of the meta session (ex-X3), no task is queued, no session is ended. -/
+theorem C18_testament_cases (r : Realm) (t : Testament) (hk : r.metaS.key = metaKey)
+    (hf : r.metaS.hasFeature RolePublisher FeaturePayloadPassthruMode = true) :
+    r.runTask (.metaPub (testamentPub t)) = r ∨
+    (validUri r.broker.strict "" t.topic = true ∧ discloseRefused r t.opts = false ∧
+     r.runTask (.metaPub (testamentPub t)) =
+      ({ r with pubCount := r.pubCount + 1,
+                broker := (r.broker.syncPublish r.session? r.now (pubOf r r.metaS t.opts t.topic t.args t.kw)).1 } : Realm).deliver
+        (r.broker.syncPublish r.session? r.now (pubOf r r.metaS t.opts t.topic t.args t.kw)).2) :=
+  metaPublish_cases r (testamentPub t) hk hf
+
+/-- In every REACHABLE realm the hypotheses about the meta session hold, so for every testament exactly one of:
+    published as requested / dropped silently (invalid topic; refused disclose_me). -/
+theorem C18_testament_reachable {cfg : Config} {r : Realm} (h : Realm.Reachable cfg r) (t : Testament) :
+    (validUri r.broker.strict "" t.topic = true → discloseRefused r t.opts = false →
+      r.runTask (.metaPub (testamentPub t)) =
+        ({ r with pubCount := r.pubCount + 1,
+                  broker := (r.broker.syncPublish r.session? r.now (pubOf r r.metaS t.opts t.topic t.args t.kw)).1 } : Realm).deliver
+          (r.broker.syncPublish r.session? r.now (pubOf r r.metaS t.opts t.topic t.args t.kw)).2) ∧
+    (validUri r.broker.strict "" t.topic = false → r.runTask (.metaPub (testamentPub t)) = r) ∧
+    (validUri r.broker.strict "" t.topic = true → discloseRefused r t.opts = true →
+      r.runTask (.metaPub (testamentPub t)) = r) := by
+  obtain ⟨_, hf, hk⟩ := C18_metaS_const h
+  exact ⟨fun hv hd => metaPublish_ok r (testamentPub t) hk hf hv hd,
+    fun hv => metaPublish_invalid r (testamentPub t) hk hv,
+    fun hv hd => metaPublish_refused r (testamentPub t) hk hf hv hd⟩
+
+-- non-vacuity: the default realm; a testament with exclude_authid and ppt options is published, one with a bad
+-- topic or with disclose_me (disclosure disallowed by default) is dropped
+example : ({} : Realm).metaS.key = metaKey ∧
+    ({} : Realm).metaS.hasFeature RolePublisher FeaturePayloadPassthruMode = true ∧
+    validUri ({} : Realm).broker.strict "" "com.example.bye" = true ∧
+    validUri ({} : Realm).broker.strict "" "a..b" = false ∧
+    discloseRefused ({} : Realm) [("exclude_authid", .list [.str "bob"]), ("ppt_scheme", .str "x")] = false ∧
+    discloseRefused ({} : Realm) [("disclose_me", .bool true)] = true := by decide +kernel
+
+/-! ### meta topics are valid URIs -/
+
+/-- Every meta topic the router publishes to is a valid URI, in strict mode too. -/
+theorem C18_meta_topics_valid (strict : Bool) :
+    validUri strict "" MetaEventSessionOnJoin = true ∧ validUri strict "" MetaEventSessionOnLeave = true ∧
+    validUri strict "" MetaEventSubOnCreate = true ∧ validUri strict "" MetaEventSubOnSubscribe = true ∧
+    validUri strict "" MetaEventSubOnUnsubscribe = true ∧ validUri strict "" MetaEventSubOnDelete = true ∧
+    validUri strict "" MetaEventRegOnCreate = true ∧ validUri strict "" MetaEventRegOnRegister = true ∧
+    validUri strict "" MetaEventRegOnUnregister = true ∧ validUri strict "" MetaEventRegOnDelete = true :=
+  metaTopics_valid strict
+
+/-- Consequence: the `on_join`, `on_leave` and registration meta publications queued by `C18_events_join`,
+    `C18_events_leave`, `C18_events_register`, `C18_events_unregister`, `C18_events_leave_regs` are NEVER dropped:
+    their task publishes (no options: nothing to refuse), in every reachable realm. -/
+theorem C18_session_events_published {cfg : Config} {r : Realm} (h : Realm.Reachable cfg r) (p : MetaPub)
+    (ht : p.topic = MetaEventSessionOnJoin ∨ p.topic = MetaEventSessionOnLeave ∨
+          p.topic = MetaEventRegOnCreate ∨ p.topic = MetaEventRegOnRegister ∨
+          p.topic = MetaEventRegOnUnregister ∨ p.topic = MetaEventRegOnDelete)
+    (ho : p.opts = []) :
+    r.runTask (.metaPub p) =
+      ({ r with pubCount := r.pubCount + 1,
+                broker := (r.broker.syncPublish r.session? r.now (pubOf r r.metaS [] p.topic p.args p.kw)).1 } : Realm).deliver
+        (r.broker.syncPublish r.session? r.now (pubOf r r.metaS [] p.topic p.args p.kw)).2 := by
+  obtain ⟨_, hf, hk⟩ := C18_metaS_const h
+  have hv : validUri r.broker.strict "" p.topic = true := by
+    have hm := metaTopics_valid r.broker.strict
+    rcases ht with e | e | e | e | e | e <;> rw [e]
+    · exact hm.1
+    · exact hm.2.1
+    · exact hm.2.2.2.2.2.2.1
+    · exact hm.2.2.2.2.2.2.2.1
+    · exact hm.2.2.2.2.2.2.2.2.1
+    · exact hm.2.2.2.2.2.2.2.2.2
+  have hd : discloseRefused r p.opts = false := by rw [ho]; rfl
+  have := metaPublish_ok r p hk hf hv hd
+  rw [ho] at this
+  exact this
+
+/-! ### registration events on leave -/
+
+/-- REGISTRATION EVENTS OF A DEPARTURE (`leaveBaseTasks` of `C18_events_leave`, characterised).
+    * Dealer: in a state satisfying the dealer invariant, the publications `syncRemoveSession k` hands to the meta
+      session are, for each id of `k`'s callee-index entry in order, the block `regDepartPubs` of that
+      registration; the ids of the entry are distinct and are exactly the registrations `k` is a callee of.
+    * The block of a registration `k` is a callee of: `on_unregister [k, id]`, then `on_delete [k, id]` iff `k` was
+      its only callee; of any other id: nothing.
+    * Realm: for a non-shutdown departure of an attached session `k ≠ 0` these publications, in that order, are
+      exactly the tasks the removal stage appends to the pending ones (the dealer's sends there are ERRORs for
+      callers, the broker's are EVENTs: neither is a task); a shutdown appends nothing.  With `C18_events_leave`:
+      tasks after the departure = pending ++ registration events ++ testaments ++ [on_leave]. -/
+theorem C18_events_leave_regs :
+    (∀ (env : DEnv) (s : DState) (k : SessKey), DealerInv s →
+      (syncRemoveSession env s k).metaPubs = (idxIds s.d.index k).flatMap (regDepartPubs s.d k) ∧
+      (idxIds s.d.index k).Nodup ∧
+      (∀ id, id ∈ idxIds s.d.index k ↔ ∃ reg ∈ s.d.regs, reg.id = id ∧ k ∈ reg.callees)) ∧
+    (∀ (d : Dealer) (k : SessKey) (reg : Reg), (d.regs.map (·.id)).Nodup → reg ∈ d.regs → k ∈ reg.callees →
+      regDepartPubs d k reg.id =
+        { topic := MetaEventRegOnUnregister, args := [sidVal k, .int reg.id] } ::
+          (if reg.callees = [k] then [{ topic := MetaEventRegOnDelete, args := [sidVal k, .int reg.id] }] else [])) ∧
+    (∀ (d : Dealer) (k : SessKey) (id : Nat), (∀ reg ∈ d.regs, reg.id = id → k ∉ reg.callees) →
+      regDepartPubs d k id = []) ∧
+    (∀ (r : Realm) (k : SessKey) (mode : LeaveMode), DealerInv r.ds → k ≠ metaKey →
+      leaveBaseTasks r k mode =
+        r.tasks ++ (if mode.isShutdown then []
+                    else ((idxIds r.ds.d.index k).flatMap (regDepartPubs r.ds.d k)).map Task.metaPub)) :=
+  ⟨fun _ _ k h => syncRemoveSession_metaPubs h k,
+   fun _ _ _ hn hm hk => regDepartPubs_callee hn hm hk,
+   fun _ _ _ h => regDepartPubs_other h,
+   fun _ _ mode hd hk => leaveBaseTasks_eq hd hk mode⟩
+
+-- non-vacuity: session 1 is the only callee of registration 1 and one of two callees of registration 2; session 2
+-- is a callee of 2 and 3.  Departure of 1: on_unregister 1, on_delete 1, on_unregister 2 — nothing about 3.
+example : let d0 : Dealer :=
+      { regs := [{ id := 1, proc := "p", «match» := "", policy := "", disclose := false, fwdTimeout := false, callees := [1] },
+                 { id := 2, proc := "q", «match» := "", policy := "roundrobin", disclose := false, fwdTimeout := false, callees := [1, 2] },
+                 { id := 3, proc := "s", «match» := "", policy := "", disclose := false, fwdTimeout := false, callees := [2] }],
+        nextReg := 3, index := [(1, [1, 2]), (2, [2, 3])] }
+    ((syncRemoveSession { sess := fun _ => none, full := fun _ => false, now := 0 } { d := d0 } 1).metaPubs.map
+        (fun p => (p.topic, match p.args with | [_, .int i] => i | _ => 0))) =
+      [(MetaEventRegOnUnregister, 1), (MetaEventRegOnDelete, 1), (MetaEventRegOnUnregister, 2)] ∧
+    ((idxIds d0.index 1).flatMap (regDepartPubs d0 1)).map (fun p => (p.topic, match p.args with | [_, .int i] => i | _ => 0)) =
+      [(MetaEventRegOnUnregister, 1), (MetaEventRegOnDelete, 1), (MetaEventRegOnUnregister, 2)] := by
+  decide
+
+/-- `C18_events_leave` and `C18_events_leave_regs` combined: ALL tasks after a non-shutdown departure of an
+    attached session `k ≠ 0` (dealer invariant): what was pending; then, per registration `k` was a callee of (callee-index
+    order), `on_unregister` and `on_delete` iff it was the last callee; then the testaments (detached, destroyed);
+    LAST `on_leave`. -/
+theorem C18_events_leave_exact {r : Realm} (hd : DealerInv r.ds) {k : SessKey} (hk : k ≠ metaKey) {s : Session}
+    (mode : LeaveMode) (hf : r.clients.find? (fun c => c.key == k) = some s) (hm : mode.isShutdown = false) :
+    (r.leave k mode).tasks =
+      r.tasks ++ ((idxIds r.ds.d.index k).flatMap (regDepartPubs r.ds.d k)).map Task.metaPub ++
+        testamentTasks (bucketOf r k) ++
+        [.metaPub { topic := MetaEventSessionOnLeave,
+                    args := [sidVal s.key, detailOr s.details "authid", detailOr s.details "authrole"] }] := by
+  rw [(C18_events_leave r k s mode hf).1 hm, leaveBaseTasks_eq hd hk mode, hm]
+  simp only [Bool.false_eq_true, if_false, List.append_assoc]
+
+-- non-vacuity of `C18_events_leave_exact`: the created default realm with one client that registered nothing
+example : ∃ (r : Realm) (s : Session), DealerInv r.ds ∧ (5 : SessKey) ≠ metaKey ∧
+    r.clients.find? (fun c => c.key == 5) = some s ∧ LeaveMode.lost.isShutdown = false :=
+  ⟨{ registerMeta ({} : Realm) (metaProcNames {}) with
+      clients := [{ key := 5, details := [], roles := [], isLocal := true }] },
+   { key := 5, details := [], roles := [], isLocal := true },
+   registerMeta_inv _ _ (DealerInv.init false false), by decide, rfl, rfl⟩
+
+/-! ### the meta-call round trip -/
+
+/-- First step of the round trip: the task `trySend` queues for an INVOCATION addressed to the meta session runs
+    `metaProc` ON THE REALM STATE THE TASK FINDS (everything completed before it is visible to the procedure),
+    keeps the state the procedure returns and queues its answer as the next task of the meta session; an
+    invocation of a registration id that names no meta procedure is answered ERROR no_such_procedure. -/
+theorem C18_meta_invoke_task (r : Realm) (req reg : Nat) (d : Dict) (a : List WVal) (kw : Dict) :
+    (∀ reg' proc, r.metaProcs.find? (fun p => p.1 == reg) = some (reg', proc) →
+      r.runTask (.metaInvoke req reg d a kw) =
+        (metaProc r proc req d a kw).2.addTasks [.metaMsg (metaProc r proc req d a kw).1]) ∧
+    (r.metaProcs.find? (fun p => p.1 == reg) = none →
+      r.runTask (.metaInvoke req reg d a kw) = r.addTasks [.metaMsg (mErr req ErrNoSuchProcedure)]) ∧
+    (∀ (tr : Realm) (s : Send), s.to = metaKey → ∀ q g dd aa kk, s.msg = .invocation q g dd aa kk →
+      tr.trySend s = { tr with tasks := tr.tasks ++ [.metaInvoke q g dd aa kk] }) :=
+  ⟨fun _ _ h => runTask_metaInvoke_some h, fun h => runTask_metaInvoke_none h, fun tr s hs q g dd aa kk hm => by
+    obtain ⟨to, msg⟩ := s
+    simp only at hs hm
+    subst hs; subst hm
+    exact trySend_meta_invocation tr q g dd aa kk⟩
+
+/-- Second step: the answer task is the meta session's own message — `handleMsg` with the meta session — and the
+    authorizer is never consulted for it; a YIELD is `dealer.yield(meta session, invocation id, {}, args, kwargs)`,
+    an ERROR is `dealer.error(meta session, invocation id, {}, uri)`.  Every answer of a meta procedure is one of
+    the two, carrying the invocation's request id. -/
+theorem C18_meta_answer_task (r : Realm) (hk : r.metaS.key = metaKey) :
+    (∀ m, r.runTask (.metaMsg m) = handleMsg r r.metaS m) ∧
+    (∀ m, authzGate r r.metaS m = (true, r)) ∧
+    (∀ req a kw, r.runTask (.metaMsg (mYield req a kw)) = handleYield r r.metaS req [] a kw) ∧
+    (∀ req uri, r.runTask (.metaMsg (mErr req uri)) = handleError r r.metaS req [] uri [] []) ∧
+    (∀ proc req details args kw,
+      (∃ a kw', (metaProc r proc req details args kw).1 = mYield req a kw') ∨
+      (∃ uri, (metaProc r proc req details args kw).1 = mErr req uri)) :=
+  ⟨fun _ => rfl, fun m => authzGate_meta r r.metaS m hk, fun req a kw => runTask_metaMsg_yield r hk req a kw,
+   fun req uri => runTask_metaMsg_err r hk req uri, fun proc req details args kw => metaProc_answer r proc req details args kw⟩
+
+/-- The task-unfolding lemmas composed: a realm whose only pending task is the invocation of a meta procedure
+    other than the kill procedures — two tasks later (`drain (fuel + 2)`) the state is the meta session's answer
+    applied to the state `metaProc` returned (evaluated on the realm with the task taken off). -/
+theorem C18_meta_call_drain {r : Realm} {req reg : Nat} {d : Dict} {a : List WVal} {kw : Dict}
+    (h : r.tasks = [.metaInvoke req reg d a kw]) {reg' : Nat} {proc : String}
+    (hmp : r.metaProcs.find? (fun p => p.1 == reg) = some (reg', proc)) (hnk : isKillProc proc = false) (fuel : Nat) :
+    drain (fuel + 1 + 1) r =
+      drain fuel (handleMsg { (metaProc { r with tasks := [] } proc req d a kw).2 with tasks := [] }
+        (metaProc { r with tasks := [] } proc req d a kw).2.metaS (metaProc { r with tasks := [] } proc req d a kw).1) :=
+  meta_call_drain h hmp hnk fuel
+
+-- non-vacuity of `C18_meta_call_drain` (the hypotheses of `C18_meta_answer_delivered` are those the proof of
+-- `C18_call_roundtrip_partial` derives from its own, which the example below that theorem satisfies)
+example : let r0 : Realm := { tasks := [.metaInvoke 1 1 [] [] []], metaProcs := [(1, MetaProcSessionCount)] }
+    r0.tasks = [.metaInvoke 1 1 [] [] []] ∧
+    r0.metaProcs.find? (fun p => p.1 == 1) = some (1, MetaProcSessionCount) ∧
+    isKillProc MetaProcSessionCount = false ∧ isKillProc MetaProcSessionKillAll = true :=
+  ⟨rfl, rfl, by decide, by decide⟩
+
+/-- The answer half at full strength: the meta session holds invocation `invId` of the pending call `(k, req)` of
+    an attached client whose queue has room, and nothing else is pending: the answer task appends exactly
+    `callerReply req m` — RESULT(req, {}, args, kwargs) for YIELD(invId, {}, args, kwargs), ERROR(CALL, req, {}, uri)
+    for ERROR(INVOCATION, invId, {}, uri) — to that client's queue, and leaves no task. -/
+theorem C18_meta_answer_delivered {r : Realm} (hd : DealerInv r.ds) (hms : r.metaS.key = metaKey) (ht : r.tasks = [])
+    {v : Invk} {invId req : Nat} {k : SessKey} (hv : v ∈ r.ds.d.invs) (hvid : v.id = ⟨metaKey, invId⟩)
+    (hvc : v.callId = ⟨k, req⟩) (hk : k ≠ metaKey)
+    {c : Session} (hc : r.clients.find? (fun c => c.key == k) = some c) (hroom : r.queueLen k < c.cap)
+    (m : Msg) (hmsg : (∃ a kw', m = mYield invId a kw') ∨ (∃ uri, m = mErr invId uri)) :
+    (r.runTask (.metaMsg m)).tasks = [] ∧
+    (r.runTask (.metaMsg m)).queueOf k = r.queueOf k ++ [callerReply req m] :=
+  meta_answer_delivered hd hms ht hv hvid hvc hk hc hroom m hmsg
+
+example (req inv : Nat) (a : List WVal) (kw : Dict) (uri : String) :
+    callerReply req (mYield inv a kw) = .result req [] a kw ∧
+    callerReply req (mErr inv uri) = .error tCALL req [] uri [] [] := ⟨rfl, rfl⟩
+
+/-- THE ROUND TRIP, full statement (audit §3(d)3): in every reachable, quiescent realm, a plain CALL (no progress,
+    no payload passthru) of a configured meta procedure other than the kill procedures by an attached client
+    (handler idle, not ending, authorized, queue not full, no call pending under that request id) is answered
+    WITHIN THE SAME STEP: exactly one message is appended to the caller's queue, the RESULT / ERROR rendered from
+    `metaProc` evaluated on the realm state after the CALL was routed.
+
+    FALSE as stated in the present model (`C18_call_roundtrip_stmt_full_fails`): `Reachable` admits
+    `Op.join metaKey …` (a client attached under the meta session's key, which no router produces); when such a
+    client leaves, the dealer's `syncRemoveSession metaKey` deletes the meta registrations and every later meta CALL
+    is answered no_such_procedure.  What is proved is `C18_call_roundtrip_partial`: the same conclusion from the state facts
+    "the best match of `proc` is a registration of the meta session alone, bound to meta procedure `mp`" — which
+    hold in every freshly created realm (example below) and are preserved by every dealer step that does not
+    remove session `metaKey` (registrations lose callees only by UNREGISTER / departure of that callee:
+    `DStep.calleeRel_frame`).  For the kill procedures the answer is queued BEHIND the departures they cause, whose
+    meta events may reach the caller first: the caller still gets its RESULT (by `C18_meta_answer_delivered`, if
+    its queue has room then), but not "appended next". -/
+def C18_call_roundtrip_stmt : Prop :=
+  ∀ (cfg : Config) (r : Realm), Realm.Reachable cfg r → r.tasks = [] →
+  ∀ (k : SessKey) (c : Session), k ≠ metaKey → r.clients.find? (fun c => c.key == k) = some c →
+    r.ending.contains k = false → r.busy k = false →
+  ∀ (req : Nat) (opts : Dict) (proc : String) (args : List WVal) (kw : Dict),
+    proc ∈ metaProcNames cfg → isKillProc proc = false →
+    authzGate r c (.call req opts proc args kw) = (true, r) →
+    r.ds.d.byCall? ⟨k, req⟩ = none →
+    opts.optFlag OptProgress = false → pptScheme opts = "" → r.queueLen k < c.cap →
+    ∃ (R : Realm) (invId : Nat) (details : Dict),
+      r.step (.msg k (.call req opts proc args kw)) = flush R ∧ R.tasks = [] ∧
+      details.get? "caller" = some (sidVal k) ∧
+      R.queueOf k = r.queueOf k ++
+        [callerReply req (metaProc { handleCall r c req opts proc args kw with tasks := [] } proc invId details args kw).1]
+
+/-- the witness history: a client attaches under the meta session's key and is dropped, then client 5 joins -/
+def rtW0 : Realm := registerMeta ({} : Realm) (metaProcNames {})
+def rtW1 : Realm := (rtW0.step (.join metaKey true [] [] 8)).2
+def rtW2 : Realm := (rtW1.step (.drop metaKey)).2
+def rtW3 : Realm := (rtW2.step (.join 5 true [] [] 8)).2
+
+theorem rtW0_create : Realm.create {} = some rtW0 := by
+  unfold Realm.create
+  have h1 : historyOk {} = true := by decide +kernel
+  have h2 : validUri ({} : Config).strict "" ({} : Config).uri = true := by decide +kernel
+  simp only [h1, h2, Bool.not_true, Bool.false_eq_true, if_false]
+  rfl
+
+theorem rtW3_reach : Realm.Reachable {} rtW3 :=
+  .step _ (.step _ (.step _ (.init rtW0_create)))
+
+def rtIsResult : Msg → Bool
+  | .result .. => true
+  | _ => false
+
+/-- everything the refutation needs to know about the witness, evaluated by the kernel -/
+theorem rtW3_facts :
+    (rtW3.tasks.isEmpty = true ∧ rtW3.cfg.authz.isNone = true ∧
+     (rtW3.clients.find? (fun c => c.key == 5)).map (fun c => c.cap) = some 8 ∧
+     rtW3.ending.contains 5 = false ∧ rtW3.busy 5 = false ∧ rtW3.ds.d.byCall? ⟨5, 1⟩ = none ∧ rtW3.queueLen 5 = 0) ∧
+    ((rtW3.step (.msg 5 (.call 1 [] MetaProcSessionCount [] []))).1.out.all (fun q => q.2.all (fun m => !rtIsResult m)) = true ∧
+     (rtW3.step (.msg 5 (.call 1 [] MetaProcSessionCount [] []))).2.ghosts.contains 5 = false ∧
+     ((rtW3.step (.msg 5 (.call 1 [] MetaProcSessionCount [] []))).2.clients.find? (fun c => c.key == 5)).map (·.stalled) = some false) := by
+  constructor <;> decide +kernel
+
+/-- The full statement is FALSE in the present model (a model artifact, not a defect of the router): after a client
+    attached under the meta session's key (`Op.join metaKey`, which `Reachable` admits and no router produces) has
+    left, the meta registrations are gone and `wamp.session.count` is answered ERROR no_such_procedure by the dealer
+    instead of the RESULT `metaProc` would render. -/
+theorem C18_call_roundtrip_stmt_full_fails : ¬ C18_call_roundtrip_stmt := by
+  intro h
+  obtain ⟨⟨ht, hau, hcl, hend, hbusy, hb, hq⟩, hout, hgh, hst⟩ := rtW3_facts
+  obtain ⟨c, hc, hcap⟩ := Option.map_eq_some_iff.mp hcl
+  have hauth : authzGate rtW3 c (.call 1 [] MetaProcSessionCount [] []) = (true, rtW3) := by
+    unfold authzGate
+    have : rtW3.cfg.authz = none := by
+      cases hh : rtW3.cfg.authz with
+      | none => rfl
+      | some x => rw [hh] at hau; cases hau
+    rw [this]
+  obtain ⟨R, invId, details, hstep, _, _, hqueue⟩ :=
+    h {} rtW3 rtW3_reach (List.isEmpty_iff.mp ht) 5 c (by decide) hc hend hbusy 1 [] MetaProcSessionCount [] []
+      (by decide) (by decide) hauth hb rfl rfl (by rw [hq, hcap]; decide)
+  -- the answer would be a RESULT …
+  rw [metaProc_sessionCount] at hqueue
+  have hsf : sessFilter ([] : List WVal) = some [] := rfl
+  simp only [hsf] at hqueue
+  have hres : ∃ m, rtIsResult m = true ∧ m ∈ R.queueOf 5 := by
+    rw [hqueue]
+    exact ⟨_, rfl, List.mem_append_right _ (List.mem_singleton.2 rfl)⟩
+  obtain ⟨m, hm, hmem⟩ := hres
+  -- … found in the queue the client reads after the step
+  unfold Realm.queueOf at hmem
+  split at hmem
+  · rename_i q hfind
+    have hq1 : q.1 = 5 := by simpa using List.find?_some hfind
+    have hqm : q ∈ R.queues := List.mem_of_find?_eq_some hfind
+    have hfl : (rtW3.step (.msg 5 (.call 1 [] MetaProcSessionCount [] []))).1.out =
+        R.queues.filter (fun q => (if R.ghosts.contains q.1 then false else
+          match R.clients.find? (fun c => c.key == q.1) with
+          | some c => !c.stalled
+          | none => true) && !q.2.isEmpty) := by rw [hstep]; rfl
+    have hg : R.ghosts = (rtW3.step (.msg 5 (.call 1 [] MetaProcSessionCount [] []))).2.ghosts := by rw [hstep]; rfl
+    have hcs : R.clients = (rtW3.step (.msg 5 (.call 1 [] MetaProcSessionCount [] []))).2.clients := by rw [hstep]; rfl
+    have hin : q ∈ (rtW3.step (.msg 5 (.call 1 [] MetaProcSessionCount [] []))).1.out := by
+      rw [hfl, List.mem_filter]
+      refine ⟨hqm, ?_⟩
+      rw [hq1, hg, hgh, hcs]
+      obtain ⟨c', hc', hs'⟩ := Option.map_eq_some_iff.mp hst
+      rw [hc']
+      simp only [Bool.false_eq_true, if_false, hs', Bool.not_false, Bool.true_and, Bool.not_eq_true']
+      cases hqq : q.2 with
+      | nil => rw [hqq] at hmem; cases hmem
+      | cons a l => rfl
+    have := List.all_eq_true.mp (List.all_eq_true.mp hout q hin) m hmem
+    rw [hm] at this
+    cases this
+  · cases hmem
+
+
+/-- THE ROUND TRIP, proved from state facts (see `C18_call_roundtrip_stmt`).  `r`: dealer invariant, meta session
+    under key 0, no task pending.  `k`: attached as `c`, handler idle, not ending, authorized, queue has room, no
+    call pending under `req`.  The CALL is plain; its best match `reg` is a registration of the meta session alone
+    (caller disclosure on), bound in `metaProcs` to the meta procedure `mp`, which is not a kill procedure.  Then
+    the step is `flush R` for a state `R` without pending tasks in which `k`'s queue is its old queue plus exactly
+    the RESULT / ERROR (`callerReply`) rendered from the answer of `metaProc` — evaluated on the state after the
+    CALL was routed, with the fresh invocation id, the details built for the meta session (which carry
+    `caller = k`'s session id) and the CALL's arguments. -/
+theorem C18_call_roundtrip_partial {r : Realm} (hd : DealerInv r.ds) (hms : r.metaS.key = metaKey) (ht : r.tasks = [])
+    {k : SessKey} {c : Session} (hk : k ≠ metaKey) (hc : r.clients.find? (fun c => c.key == k) = some c)
+    (hend : r.ending.contains k = false) (hbusy : r.busy k = false)
+    (req : Nat) (opts : Dict) (proc : String) (args : List WVal) (kw : Dict)
+    (hauth : authzGate r c (.call req opts proc args kw) = (true, r))
+    (hb : r.ds.d.byCall? ⟨k, req⟩ = none)
+    {reg : Reg} (hm : r.ds.d.matchProcedure proc = some reg) (hcal : reg.callees = [metaKey])
+    (hdis : reg.disclose = true)
+    {reg' : Nat} {mp : String} (hmp : r.metaProcs.find? (fun p => p.1 == reg.id) = some (reg', mp))
+    (hnk : isKillProc mp = false)
+    (hprog : opts.optFlag OptProgress = false) (hppt : pptScheme opts = "")
+    (hroom : r.queueLen k < c.cap) :
+    ∃ R : Realm,
+      r.step (.msg k (.call req opts proc args kw)) = flush R ∧ R.tasks = [] ∧
+      (invDetails r.denv reg k metaKey opts proc).get? "caller" = some (sidVal k) ∧
+      R.queueOf k = r.queueOf k ++
+        [callerReply req (metaProc { handleCall r c req opts proc args kw with tasks := [] } mp
+            (genOf r.ds.invGen metaKey + 1) (invDetails r.denv reg k metaKey opts proc) args kw).1] := by
+  obtain ⟨R, h1, h2, h3⟩ := call_roundtrip hd hms ht hk hc hend hbusy req opts proc args kw hauth hb hm hcal hdis hmp hnk
+    hprog hppt hroom
+  exact ⟨R, h1, h2, invDetails_caller r.denv reg k metaKey opts proc hdis, h3⟩
+
+-- non-vacuity: the realm `create {}` builds, with one attached client (key 5)
+example : ∃ (r : Realm) (c : Session) (reg : Reg),
+    DealerInv r.ds ∧ r.metaS.key = metaKey ∧ r.tasks = [] ∧ (5 : SessKey) ≠ metaKey ∧
+    r.clients.find? (fun c => c.key == 5) = some c ∧ r.ending.contains 5 = false ∧ r.busy 5 = false ∧
+    authzGate r c (.call 1 [] MetaProcSessionCount [] []) = (true, r) ∧
+    r.ds.d.byCall? ⟨5, 1⟩ = none ∧ r.ds.d.matchProcedure MetaProcSessionCount = some reg ∧
+    reg.callees = [metaKey] ∧ reg.disclose = true ∧
+    r.metaProcs.find? (fun p => p.1 == reg.id) = some (reg.id, MetaProcSessionCount) ∧
+    isKillProc MetaProcSessionCount = false ∧
+    Nexus.Dict.optFlag [] OptProgress = false ∧ pptScheme [] = "" ∧ r.queueLen 5 < c.cap ∧
+    -- … and what the client reads in that step: RESULT(1, [1]) — one session attached
+    ((r.step (.msg 5 (.call 1 [] MetaProcSessionCount [] []))).1.out.map
+      (fun q => (q.1, q.2.map (fun m => match m with | .result req _ [.int n] _ => (req, n) | _ => (0, 0))))) =
+      [(5, [(1, 1)])] := by
+  let c5 : Session := { key := 5, details := [("authid", .str "bob")], roles := [], isLocal := true, cap := 8 }
+  let r : Realm := { registerMeta ({} : Realm) (metaProcNames {}) with clients := [c5], queues := [(5, [])] }
+  have hmap : (r.ds.d.matchProcedure MetaProcSessionCount).map (fun g => (g.id, g.callees, g.disclose)) =
+      some (1, [metaKey], true) := by decide +kernel
+  obtain ⟨reg, hreg, hx⟩ := Option.map_eq_some_iff.mp hmap
+  simp only [Prod.mk.injEq] at hx
+  obtain ⟨hid, hcal, hdis⟩ := hx
+  refine ⟨r, c5, reg, registerMeta_inv _ _ (DealerInv.init false false), ?_, (registerMeta_fields _ _).2.2.2.1, by decide,
+    rfl, rfl, rfl, rfl, by decide +kernel, hreg, hcal, hdis, ?_, by decide, rfl, rfl, by decide +kernel, by decide +kernel⟩
+  · show (registerMeta ({} : Realm) (metaProcNames {})).metaS.key = metaKey
+    rw [(registerMeta_fields _ _).2.2.2.2.1]
+  · rw [hid]; decide +kernel
+
+end WpA
 
 end Nexus.C18
